@@ -116,7 +116,7 @@ def specStep (s : SS) : Op → SS × Out
     | [] => (s, .panic)
     | [l] => ({ back := l, stack := [] }, .ok)
     | l :: _ :: r => ({ s with stack := l :: r }, .ok)
-  | .snap x y => (s, .many ((snapReads x y).map (specRead Hc s) ++ [specDump Hc Hm s]))
+  | .snap x y sep => (s, .many ((snapReads x y sep).map (specRead Hc s) ++ [specDump Hc Hm s]))
   | .bad => (s, .bad)
   | op => (s, specRead Hc s op)
 
